@@ -33,7 +33,7 @@ func newActiveTCPConn(
 		writeBuffer: packetio.NewBuffer(),
 	}
 
-	laddr, err := getTCPAddrOnInterface(localAddress)
+	laddr, err := activeTCPLocalAddr(localAddress)
 	if err != nil {
 		a.closed.Store(true)
 		log.Infof("Failed to dial TCP address %s: %v", remoteAddress, err)
@@ -50,7 +50,7 @@ func newActiveTCPConn(
 		dialer := &net.Dialer{
 			LocalAddr: laddr,
 		}
-		conn, err := dialer.DialContext(ctx, "tcp", remoteAddress.String())
+		conn, err := activeTCPDial(ctx, dialer, remoteAddress.String())
 		if err != nil {
 			log.Infof("Failed to dial TCP address %s: %v", remoteAddress, err)
 
